@@ -514,4 +514,77 @@ theorem deviceProps_dict (settings : Json) (P : Obj) (mode : Bytes) (hP : Sorted
             · simp only [h4, if_false]
               exact hdp0m k h4
 
+/-- device::setup ignores what is stored under `modes/<other mode>`: the device gets the same properties -/
+theorem deviceProps_inert_top (settings : Json) (P : Obj) (mode m' : Bytes) (x j' : Json) (hP : Sorted P)
+    (hm : PlainKey mode) (hne : m' ≠ mode) (hmode : lookup sMode P = some (.str mode))
+    (L : DevLayers settings (.obj P) mode) (hw : write [sModes, m'] x (.obj P) = .ok j') :
+    deviceProps settings j' = deviceProps settings (.obj P) := by
+  obtain ⟨c, hj', _⟩ := write_obj_shape sModes [m'] x P j' hw
+  have hP' : Sorted (insert sModes c P) := sorted_insert _ _ hP
+  have hne7 : sMode ≠ sModes := by decide
+  have hmode' : lookup sMode (insert sModes c P) = some (.str mode) := by
+    rw [lookup_insert_ne hne7]; exact hmode
+  have hfr : readK [sModes, mode] j' = readK [sModes, mode] (.obj P) :=
+    frame_touchWith _ [sModes, m'] [sModes, mode] (.obj P) j' hw (not_prefix_2_2 hne) (not_prefix_2_2 (Ne.symm hne))
+  -- the object layers are read at paths the write does not touch
+  have hlay : ∀ o, PlainKey o → o ≠ sModes →
+      layer1 o j' = layer1 o (.obj P) ∧ layer2 mode o j' = layer2 mode o (.obj P) ∧ layer3 mode o j' = layer3 mode o (.obj P) := by
+    intro o _ hos
+    refine ⟨?_, ?_, ?_⟩
+    · exact frame_touchWith _ [sModes, m'] [o] (.obj P) j' hw
+        (fun hp => by have := List.IsPrefix.length_le hp; simp at this)
+        (fun hp => hos (List.cons_prefix_cons.mp hp).1)
+    · exact frame_touchWith _ [sModes, m'] [o, sModes, mode] (.obj P) j' hw
+        (fun hp => hos (List.cons_prefix_cons.mp hp).1.symm)
+        (fun hp => hos (List.cons_prefix_cons.mp hp).1)
+    · exact frame_touchWith _ [sModes, m'] [sModes, mode, o] (.obj P) j' hw
+        (fun hp => hne (List.cons_prefix_cons.mp (List.cons_prefix_cons.mp hp).2).1)
+        (fun hp => by have := List.IsPrefix.length_le hp; simp at this)
+  have L' : DevLayers settings j' mode := by
+    refine ⟨L.d1, L.d2, L.d3, by rw [hfr]; exact L.um, ?_⟩
+    intro o ho
+    obtain ⟨s1, s2, s3, u1, u2, u3⟩ := L.obj o ho
+    have hpo : PlainKey o ∧ o ≠ sModes := by
+      rcases ho with ho | ho | ho <;> subst ho
+      · exact ⟨plain_sKernel, by decide⟩
+      · exact ⟨plain_sMemory, by decide⟩
+      · exact ⟨plain_sStream, by decide⟩
+    obtain ⟨e1, e2, e3⟩ := hlay o hpo.1 hpo.2
+    exact ⟨s1, s2, s3, by rw [e1]; exact u1, by rw [e2]; exact u2, by rw [e3]; exact u3⟩
+  obtain ⟨kvs, ko, me, st, hr, hs, hko, hme, hst, hl⟩ := deviceProps_dict settings P mode hP hm hmode L
+  rw [hj'] at L' hfr ⊢
+  obtain ⟨kvs', ko', me', st', hr', hs', hko', hme', hst', hl'⟩ :=
+    deviceProps_dict settings (insert sModes c P) mode hP' hm hmode' L'
+  -- the kernel / memory / stream members are the same values
+  have hio : ∀ o, PlainKey o → o ≠ sModes →
+      initialObject settings mode o (.obj (insert sModes c P)) = initialObject settings mode o (.obj P) := by
+    intro o ho hos
+    have := objectSpecific_inert_top mode m' o x (.obj P) j' hm ho hos hne hw
+    rw [hj'] at this
+    unfold initialObject
+    rw [this]
+  have eko : ko' = ko := by
+    have := hio sKernel plain_sKernel (by decide); rw [hko', hko] at this; injection this
+  have eme : me' = me := by
+    have := hio sMemory plain_sMemory (by decide); rw [hme', hme] at this; injection this
+  have est : st' = st := by
+    have := hio sStream plain_sStream (by decide); rw [hst', hst] at this; injection this
+  rw [hr, hr']
+  congr 2
+  apply sorted_ext hs' hs
+  intro k
+  rw [hl k, hl' k, hfr, eko, eme, est]
+  by_cases h1 : k = sMode
+  · simp [h1]
+  · by_cases h2 : k = sStream
+    · simp [h1, h2]
+    · by_cases h3 : k = sMemory
+      · simp [h1, h2, h3]
+      · by_cases h4 : k = sKernel
+        · simp [h1, h2, h3, h4]
+        · by_cases h5 : k = sModes
+          · simp [h1, h2, h3, h4, h5]
+          · simp only [h1, h2, h3, h4, h5, if_false]
+            rw [lookup_insert_ne h5]
+
 end Occa.Json
